@@ -39,7 +39,7 @@ SPEC = {
     "stubs": ["std::rt::thread_cleanup -> no-op", "core::fmt::write -> Ok(()) (only panic / debug_assert text)", "metadata built at run time with Metadata::new (one object, symbolic target / level / kind)",
               "a light Collect stand-in as the root of the Layered stack that supplies the Context"],
     "assumptions": ["the oracle's prefix table is computed by the generator in Python (str.startswith) and the deciding rule is: longest matching target, the target-less default last, duplicate key => last added wins",
-                    "max_level_hint is required to be a sound upper bound and not wider than anything ever added (after replacing a directive by a lower level the real hint stays at the old maximum; that is sound and accepted)"],
+                    "max_level_hint is required to be a sound upper bound and not wider than anything ever added (after replacing a directive by a lower level the real hint stays at the old maximum; that is sound and accepted); soundness (enabled => level <= hint) is asserted in EVERY directive-key tuple including the duplicate-key ones, so a hint left too low after a duplicate key raised a directive is a violation"],
     "extra_coverage": {"exhaustive": False},
     "manifest": {
         "text": "Bounded proof: for every ordered tuple of directive keys within the bound (one CBMC query each) and, inside each query, every LevelFilter per directive, every query target of the literal universe, every level and kind, the real Targets::would_enable, Targets::default_level, Subscribe::enabled / Filter::enabled (asked with a real Context through the real Layered stack), register_callsite / callsite_enabled and max_level_hint are compared with a longest-matching-prefix oracle whose prefix table is computed outside the code under test. "
